@@ -34,6 +34,9 @@ def generate(rng, tier):
         for (l0, r0) in PAIRS + [("per", "per")]:
             for n in (3, 4, 5, rng.choice([6, 9, 12])):
                 trailing = gen.trailing_shape(rng, 1)
+                if rng.random() < 0.35:
+                    # n-d data: per-lane conditions over two or three trailing axes, incl. axes of length 1
+                    trailing = rng.choice([[2, 1], [1, 2], [3, 1], [2, 2], [1, 3, 1], [2, 1, 2]])
                 shape = [n] + trailing
                 L = gen.lanes_of(shape)
                 xs = gen.axis_q(rng, n, rng.choice(["uniform", "geometric", "random", "dyadic", "mesh64", "mesh64", "evenish"]))
